@@ -117,7 +117,7 @@ def py_line_end(content, o):
     return i if i != -1 else len(content)
 
 
-def impl_tfl_all(content, cons, offsets=None, order_seed=None):
+def impl_tfl_all(content, cons, offsets=None, order_seed=None, gz_members=0):
     """
     try_find_line at every offset on ONE real seeker object.  The lookups are made in an
     order chosen from `order_seed` (ascending, descending, shuffled, or ascending followed
@@ -130,7 +130,20 @@ def impl_tfl_all(content, cons, offsets=None, order_seed=None):
     from searchkit.constraints import LogFileDateSinceSeeker
     c = make_constraint(cons)
     with tempfile.NamedTemporaryFile(prefix='vh-', delete=False) as f:
-        f.write(content)
+        if gz_members:
+            # the same bytes as a gzip archive of `gz_members` members (the seeker is given the
+            # GzipFile object the search task would open)
+            import gzip as _gzip
+            import io as _io
+            n = len(content)
+            cuts = [n * i // gz_members for i in range(gz_members + 1)]
+            for a, b in zip(cuts, cuts[1:]):
+                buf = _io.BytesIO()
+                with _gzip.GzipFile(fileobj=buf, mode='wb', mtime=0) as g:
+                    g.write(content[a:b])
+                f.write(buf.getvalue())
+        else:
+            f.write(content)
         path = f.name
     offs = list(offsets if offsets is not None else range(len(content) + 1))
     rng = _random.Random(order_seed if order_seed is not None else 0)
@@ -156,7 +169,9 @@ def impl_tfl_all(content, cons, offsets=None, order_seed=None):
         except Exception as ex:  # pylint: disable=broad-except
             return classify(ex)
     try:
-        with open(path, 'rb') as fd:
+        import gzip as _gzip2
+        opener = (lambda: _gzip2.open(path, 'rb')) if gz_members else (lambda: open(path, 'rb'))
+        with opener() as fd:
             seeker = LogFileDateSinceSeeker(fd, c)
             for k in seq:
                 row = lookup(seeker, offs[k])
@@ -222,13 +237,15 @@ def impl_apply_twice(content1, content2, cons):
 # generators
 # --------------------------------------------------------------------------
 
-def gen_since(rng, times, kind):
+def gen_since(rng, times, kind, where=None):
     """ a constraint whose since date is before / between / equal to / after the times """
     if times:
         lo, hi = min(times), max(times)
     else:
         lo = hi = gen.BASE
     r = rng.random()
+    if where == 'before':
+        r = 0.0
     if r < 0.15:
         since = lo - timedelta(seconds=rng.choice([1, 60, 86400 * 3]))
     elif r < 0.3:
@@ -285,6 +302,9 @@ def gen_log(rng, nlines, kind='std', ordered=True, undated=0.2, max_run=40,
                 ln = rng.choice([b'2023-02-30 00:00:00 x', b'0000-00-00 00:00:00',
                                  b'2023-13-01 25:61:61 y', b'2023-01-01 1', b'2023-01-01',
                                  b'9999-99-99 99:99:99']) + b' ' + body
+                if rng.random() < 0.4:
+                    # this very moment with seconds / minutes just out of range
+                    ln = matchers.near_miss(kind, t, rng).encode() + b' ' + body
         else:
             run = 0
             ln = matchers.fmt_ts(kind, t, rng).encode() + (b' ' + body if body else b'')
